@@ -173,6 +173,29 @@ def _is_op_with_lambda(node: ast.AST, name: str) -> bool:
     )
 
 
+def _is_dictionary(node: ast.AST) -> bool:
+    "A dictionary display, or the first element of a sequence of them"
+    if isinstance(node, ast.Dict):
+        return True
+    return (
+        is_call_of(node, "First")
+        and len(node.args) == 1  # type: ignore
+        and _is_sequence_of_dictionaries(node.args[0])  # type: ignore
+    )
+
+
+def _is_sequence_of_dictionaries(seq: ast.AST) -> bool:
+    """Does this sequence hand out dictionary displays? They may be made by a `Select`, inside
+    the function of a `SelectMany`, and a `Where` lets them through."""
+    if _is_op_with_lambda(seq, "Select"):
+        return _is_dictionary(seq.args[1].body)  # type: ignore
+    if _is_op_with_lambda(seq, "SelectMany"):
+        return _is_sequence_of_dictionaries(seq.args[1].body)  # type: ignore
+    if _is_op_with_lambda(seq, "Where"):
+        return _is_sequence_of_dictionaries(seq.args[0])  # type: ignore
+    return False
+
+
 # The name ObjectStream gives the function parameter of each operator
 _operator_function_keyword = {"Select": "f", "SelectMany": "func", "Where": "filter"}
 
@@ -664,8 +687,7 @@ class simplify_chained_calls(FuncADLNodeTransformer):
             if (
                 is_call_of(obj, "First")
                 and len(obj.args) == 1
-                and _is_op_with_lambda(obj.args[0], "Select")
-                and isinstance(obj.args[0].args[1].body, ast.Dict)
+                and _is_sequence_of_dictionaries(obj.args[0])
             ):
                 # The object turned out to stand for a `First(...)`: same as if it had been
                 # written out.
